@@ -6,6 +6,7 @@ changes for that property (so that they do not repeat them)."""
 import json, sys, os, subprocess, glob
 root = sys.argv[1]
 SHAPES_R3 = ' (A) the kind of slip a maintainer makes while porting a fix or feature from the sibling Java/TypeScript library or while tidying code: a wrong variable of the same type, a swapped pair of arguments, `<` for `<=`, a sign or rounding mode, a loop bound, an early return, integer vs float arithmetic - located in a secondary accessor or in one branch of a function, so that the wrong answer is PLAUSIBLE (another legal value) rather than a crash;\n (B) wrong only for a combination of two or more arguments or conditions that each occur often but rarely together (e.g. a particular week start together with a particular month shape; a gender together with a boundary instant; negative step together with a year carry);\n (C) wrong only at the extremes of the supported domain (the first/last supported year or day, the largest steps, index 0 or size-1 of a cycle, negative indices, the last entry of a table) or only for a value reached by a long chain of stepping;\n (D) process-global or per-thread state other than a plain memo: a configurable provider/static that is left changed, a lock taken in a different order or held across a call, a lazily initialised table built from the first request, behaviour that differs between the first and later calls, or between threads running at the same time;\n (E) an internal helper shared by several public routes changed so that only ONE of the routes named under "observable through" goes wrong while the most commonly used route stays right.\n'
+SHAPES_R5 = " (K) wrong only at the edge of the supported domain of this property: the first or last supported year / day / instant, year 0 or 1, index 0 or size-1 of a list, n = 0, an empty or single-element result, the largest magnitudes the API accepts - while everything a few steps inside the domain stays right;\n (L) a special-case branch (1582 cut-over, leap month, leap second-of-day roll, 23:00 roll, reform-era years, `if year < 1600`, first/last record of a table) that the crate's own tests never execute: find one with a quick experiment (e.g. put a panic!() in it and run the suite), then change what that branch does in a plausible way;\n (M) the refusal side of the contract: an invalid argument (month 13, day 31 of a 30-day month, hour 24, second 60, a leap month the year does not have, an unknown name, an index outside a non-wrapping range, a date in the 1582 gap) that used to be refused is now silently accepted and mapped to some neighbouring valid value - on ONE constructor or route only (the sibling constructors keep refusing), or a valid extreme argument is now refused;\n (N) a conversion between two representations of the same instant or day that drops or mangles one field on the way (seconds or minutes lost, leap flag lost, hour taken from the wrong object, day taken before instead of after a roll-over) so that a round trip through that one conversion is no longer the identity while each side on its own is consistent;\n (O) a loop replaced by a closed formula, a linear scan by a binary search, or repeated work by a lazily built table, with an off-by-one that only bites at the first or last element, for the largest step counts, or for a table slot that is filled by a later request.\n"
 SHAPES_R4 = ' (F) a secondary public surface of the same values that the property still covers: equality / comparison operators, Display or name getters used as identities, `from_name`/`from_index`/`from_ymd` vs `new`, conversions between representations (`Into`, getters that rebuild a parent object, `get_solar_day` <-> `get_lunar_day` <-> `get_sixty_cycle_day` round trips), list accessors vs single-item accessors - changed so that the main accessor stays right and the secondary one disagrees with it;\n (G) two errors that cancel on the common route and only show on a less common one (e.g. an offset added in a helper and subtracted again by its main caller, but not by a second caller);\n (H) numeric representation slips: usize/isize casts of possibly negative values, f64 -> integer truncation vs floor vs round near .0/.5, integer division of negatives, `%` vs `rem_euclid`, overflow-free but wrong for large magnitudes, comparisons of floats that differ in the last bits - located so that only rare inputs (negative indices, instants within a second of a boundary, years near the ends of the range) are affected;\n (I) a one-cell edit of a data table or packed string (one entry of a leap-month list, one holiday record, one coefficient far down a series, one character of a packed table, one element of a names array used only by one accessor) that the property text nevertheless pins down (do not pick a cell whose content the statement leaves open);\n (J) a change in *when* something is computed (moved into a constructor, made lazy, hoisted out of a loop, cached in the value itself) that makes a value built one way differ from the same value built another way (constructed vs stepped vs cloned vs taken from a list).\n'
 os.makedirs(root + '/prompts', exist_ok=True)
 props = {json.loads(l)['id']: json.loads(l) for l in open('/verif/properties.jsonl')}
@@ -19,7 +20,7 @@ for pid, p in props.items():
             m = json.load(open(d)); prev.append('- ' + str(m.get('summary'))[:600])
         except Exception:
             pass
-    shapes = SHAPES_R4 if len(sys.argv) > 2 and sys.argv[2] == "r4" else SHAPES_R3
+    shapes = {"r4": SHAPES_R4, "r5": SHAPES_R5}.get(sys.argv[2] if len(sys.argv) > 2 else "", SHAPES_R3)
     text = f"""You are working on the Rust library 6tail/tyme4rs (a Chinese calendar library: Gregorian/lunar conversion, solar terms, sexagenary cycles, festivals, almanac tables). Your private scratch copy is the git worktree at {wt} (a checkout of the current HEAD). Work ONLY inside {wt}. Do not read or modify /repo or /verif or any other directory under {root}.
 
 Here is a semantic property that this library is supposed to satisfy:
